@@ -1,1 +1,318 @@
-From SimRes Require Import ResModel.
+(** C10 -- proofs.  Every view is a function of (model structure, result) only. *)
+From Coq Require Import List NArith ZArith QArith Bool Lia.
+From MxlBase Require Import ListX.
+From SimRes Require Import ResModel ResSpec.
+Import ListNotations.
+Local Open Scope Z_scope.
+
+Lemma lookup_app_notin {A} k (a b : list (name * A)) :
+  ~ In k (map fst a) -> lookup k (a ++ b) = lookup k b.
+Proof.
+  induction a as [|[k' v'] a IH]; cbn [lookup app map fst]; intro H; [reflexivity|].
+  destruct (N.eqb_spec k k') as [->|Hne].
+  - exfalso. apply H. left. reflexivity.
+  - apply IH. intro Hin. apply H. right. exact Hin.
+Qed.
+
+Lemma set_assoc_app_notin {A} k (v : A) (a b : list (name * A)) :
+  ~ In k (map fst a) -> set_assoc k v (a ++ b) = a ++ set_assoc k v b.
+Proof.
+  induction a as [|[k' v'] a IH]; cbn [set_assoc app map fst]; intro H; [reflexivity|].
+  destruct (N.eqb_spec k k') as [->|Hne].
+  - exfalso. apply H. left. reflexivity.
+  - f_equal. apply IH. intro Hin. apply H. right. exact Hin.
+Qed.
+
+Lemma set_assoc_keys {A} k (v : A) d :
+  lookup k d <> None -> map fst (set_assoc k v d) = map fst d.
+Proof.
+  induction d as [|[k' v'] d IH]; cbn [lookup set_assoc map fst]; intro H.
+  - exfalso. apply H. reflexivity.
+  - destruct (N.eqb_spec k k') as [->|Hne]; cbn [map fst]; [reflexivity|].
+    f_equal. apply IH. exact H.
+Qed.
+
+(** update_parameters never changes the parameter NAMES (even when it fails half-way) *)
+Lemma apply_params_keys p : forall cur, map fst (fst (apply_params p cur)) = map fst cur.
+Proof.
+  induction p as [|[k v] p IH]; intro cur; cbn [apply_params]; [reflexivity|].
+  destruct (lookup k cur) eqn:E; [|reflexivity].
+  rewrite IH. apply set_assoc_keys. rewrite E. discriminate.
+Qed.
+
+(** re-applying a full parameter dict erases whatever values the model had *)
+Lemma apply_params_gen : forall pb pa cb,
+  NoDup (map fst (pa ++ pb)) -> map fst cb = map fst pb ->
+  apply_params pb (pa ++ cb) = (pa ++ pb, true).
+Proof.
+  induction pb as [|[k v] pb IH]; intros pa cb Hnd Hk.
+  - destruct cb; [|discriminate]. reflexivity.
+  - destruct cb as [|[k0 v0] cb]; [discriminate|]. cbn [map fst] in Hk. injection Hk as Hk0 Hk. subst k0.
+    cbn [apply_params].
+    assert (Hnotin : ~ In k (map fst pa)).
+    { rewrite map_app in Hnd. cbn [map fst] in Hnd. apply NoDup_remove_2 in Hnd.
+      intro Hin. apply Hnd. apply in_or_app. left. exact Hin. }
+    rewrite (lookup_app_notin k pa _ Hnotin). cbn [lookup]. rewrite N.eqb_refl.
+    rewrite (set_assoc_app_notin k v pa _ Hnotin). cbn [set_assoc]. rewrite N.eqb_refl.
+    replace (pa ++ (k, v) :: cb) with ((pa ++ [(k, v)]) ++ cb) by (rewrite <- app_assoc; reflexivity).
+    rewrite IH.
+    + rewrite <- app_assoc. reflexivity.
+    + rewrite <- app_assoc. exact Hnd.
+    + exact Hk.
+Qed.
+
+Lemma apply_params_same p cur :
+  NoDup (map fst p) -> map fst cur = map fst p -> apply_params p cur = (p, true).
+Proof. intros Hnd Hk. apply (apply_params_gen p [] cur); assumption. Qed.
+
+Lemma lookups_length ns : forall e vs, lookups ns e = Some vs -> length vs = length ns.
+Proof.
+  induction ns as [|n ns IH]; intros e vs H; cbn [lookups] in H.
+  - injection H as <-. reflexivity.
+  - destruct (lookup n e); [|discriminate]. destruct (lookups ns e) eqn:E; [|discriminate].
+    injection H as <-. cbn [length]. f_equal. apply (IH e). exact E.
+Qed.
+
+Lemma map_fst_combine {A B} (a : list A) : forall (b : list B), length b = length a -> map fst (combine a b) = a.
+Proof.
+  induction a as [|x a IH]; intros b H; [reflexivity|].
+  destruct b as [|y b]; [discriminate|]. cbn [combine map fst]. f_equal. apply IH. cbn [length] in H. lia.
+Qed.
+
+Section Proofs.
+  Variable fsem : fnid -> list Z -> Z.
+  Notation FX := expected_facts.
+
+  Lemma create_cache_apv_keys m cur c :
+    create_cache fsem m cur = Some c ->
+    map fst (c_apv c) = map fst cur ++ static_names m (map fst cur).
+  Proof.
+    unfold create_cache, static_names. intro H.
+    destruct (eval_names fsem m (m_order m) _) as [dep|]; [|discriminate].
+    destruct (classify m (m_order m) (map fst cur) [] []) as [[[pn st] dy]|]; [|discriminate].
+    destruct (stoich_rxns fsem pn dep (m_rxn m) ([], [])) as [[stat dyn]|]; [|discriminate].
+    destruct (lookups st dep) as [svals|] eqn:Es; [|discriminate].
+    destruct (lookups (map fst (m_vars m)) dep) as [ivals|]; [|discriminate].
+    injection H as <-. cbn [c_apv]. rewrite map_app. f_equal.
+    apply map_fst_combine. apply (lookups_length _ _ _ Es).
+  Qed.
+
+  Lemma names_of_keys m pn cur f :
+    evaluable fsem m pn -> map fst cur = pn ->
+    names_of fsem m cur f = Ok (view_names m pn f).
+  Proof.
+    intros Hev Hk. unfold names_of. destruct (create_cache fsem m cur) as [c|] eqn:E.
+    - rewrite (create_cache_apv_keys _ _ _ E). rewrite Hk. reflexivity.
+    - exfalso. exact (Hev cur Hk E).
+  Qed.
+
+  Lemma fill_canon m pn : forall ss ps cur acc tbs,
+    NoDup pn -> Forall (fun p => map fst p = pn) ps -> map fst cur = pn ->
+    map_res (fun sp => args_table fsem m (snd sp) (fst sp)) (combine ss ps) = Ok tbs ->
+    length ss = length ps ->
+    exists cur', fill fsem FX m ss ps (mkSt cur acc) = (Ok (acc ++ tbs), mkSt cur' (acc ++ tbs))
+                 /\ map fst cur' = pn.
+  Proof.
+    induction ss as [|s ss IH]; intros ps cur acc tbs Hnd Hall Hk Hm Hlen.
+    - destruct ps; [|discriminate]. cbn [combine map_res] in Hm. injection Hm as <-.
+      exists cur. cbn [fill s_raw]. rewrite app_nil_r. split; [reflexivity|exact Hk].
+    - destruct ps as [|p ps]; [discriminate|]. pose proof (Forall_inv Hall) as Hp. pose proof (Forall_inv_tail Hall) as Hall'. cbn beta in Hp.
+      cbn [combine map_res fst snd] in Hm.
+      destruct (args_table fsem m p s) as [tb|] eqn:Et; [|discriminate].
+      destruct (map_res (fun sp => args_table fsem m (snd sp) (fst sp)) (combine ss ps)) as [tbs'|] eqn:Er; [|discriminate].
+      injection Hm as <-.
+      cbn [fill]. change (rf_fill_reapply FX) with true. cbn [s_cur s_raw].
+      rewrite (apply_params_same p cur); [|rewrite Hp; exact Hnd|rewrite Hp; exact Hk].
+      cbn [negb]. rewrite Et.
+      destruct (IH ps p (acc ++ [tb]) tbs' Hnd Hall' Hp Er) as [cur' [E K]]; [cbn [length] in Hlen; lia|].
+      exists cur'. rewrite E. rewrite <- app_assoc. split; [reflexivity|exact K].
+  Qed.
+
+  Lemma compute_args_good m r pn tbs st :
+    wf_res r pn -> canon_tables fsem m r = Ok tbs -> good_state pn tbs st ->
+    exists cur', compute_args fsem FX m r st = (Ok tbs, mkSt cur' tbs) /\ map fst cur' = pn.
+  Proof.
+    intros [Hnd [Hlen [Hne Hall]]] Hc [Hk Hraw]. destruct st as [cur raw]. cbn [s_cur s_raw] in *.
+    unfold compute_args. change (rf_fill_guard FX) with true. cbn [s_raw andb].
+    assert (Hfill : exists cur', fill fsem FX m (r_segs r) (r_pars r) (mkSt cur []) = (Ok tbs, mkSt cur' tbs) /\ map fst cur' = pn).
+    { destruct (fill_canon m pn (r_segs r) (r_pars r) cur [] tbs Hnd Hall Hk Hc Hlen) as [cur' [E K]].
+      exists cur'. split; [exact E|exact K]. }
+    destruct Hraw as [-> | ->].
+    - cbn [nonempty]. exact Hfill.
+    - destruct tbs as [|tb tbs]; cbn [nonempty].
+      + exact Hfill.
+      + exists cur. split; [reflexivity|exact Hk].
+  Qed.
+
+  Lemma view_selected_spec m r pn tbs st f n conc :
+    wf_res r pn -> evaluable fsem m pn -> canon_tables fsem m r = Ok tbs -> good_state pn tbs st ->
+    fst (view_selected fsem FX m r f n conc st) = spec_selected fsem m r pn f n conc
+    /\ good_state pn tbs (snd (view_selected fsem FX m r f n conc st)).
+  Proof.
+    intros Hwf Hev Hc Hg. unfold view_selected, spec_selected.
+    destruct (compute_args_good m r pn tbs st Hwf Hc Hg) as [cur' [E K]]. rewrite E, Hc.
+    cbn [s_cur]. rewrite (names_of_keys m pn cur' f Hev K).
+    assert (G : good_state pn tbs (mkSt cur' tbs)) by (split; [exact K|right; reflexivity]).
+    destruct (map_res (select_cols lookups (view_names m pn f)) tbs); cbn [fst snd]; split; auto.
+  Qed.
+
+  Lemma rhs_loop_spec m pn : forall tbs ps cur,
+    NoDup pn -> Forall (fun p => map fst p = pn) ps -> map fst cur = pn ->
+    exists cur', rhs_loop fsem FX m tbs ps cur = (spec_rhs_list fsem m tbs ps, cur') /\ map fst cur' = pn.
+  Proof.
+    induction tbs as [|tb tbs IH]; intros ps cur Hnd Hall Hk.
+    - destruct ps; exists cur; split; auto.
+    - destruct ps as [|p ps]; [exists cur; split; auto|].
+      pose proof (Forall_inv Hall) as Hp. pose proof (Forall_inv_tail Hall) as Hall'. cbn beta in Hp.
+      cbn [rhs_loop spec_rhs_list]. change (rf_rhs_reapply FX) with true.
+      rewrite (apply_params_same p cur); [|rewrite Hp; exact Hnd|rewrite Hp; exact Hk].
+      cbn [negb]. destruct (rhs_table fsem m p tb) as [f|e].
+      + destruct (IH ps p Hnd Hall' Hp) as [cur' [E K]]. rewrite E.
+        destruct (spec_rhs_list fsem m tbs ps); exists cur'; split; auto.
+      + exists p. split; auto.
+  Qed.
+
+  Lemma view_rhs_spec m r pn tbs st n conc :
+    wf_res r pn -> canon_tables fsem m r = Ok tbs -> good_state pn tbs st ->
+    fst (view_rhs fsem FX m r n conc st) = spec_rhs fsem m r n conc
+    /\ good_state pn tbs (snd (view_rhs fsem FX m r n conc st)).
+  Proof.
+    intros Hwf Hc Hg. unfold view_rhs, spec_rhs.
+    destruct (compute_args_good m r pn tbs st Hwf Hc Hg) as [cur' [E K]]. rewrite E, Hc.
+    destruct Hwf as [Hnd [Hlen [Hne Hall]]]. cbn [s_cur s_raw].
+    destruct (rhs_loop_spec m pn tbs (r_pars r) cur' Hnd Hall K) as [c2 [E2 K2]]. rewrite E2.
+    assert (G : good_state pn tbs (mkSt c2 tbs)) by (split; [exact K2|right; reflexivity]).
+    destruct (spec_rhs_list fsem m tbs (r_pars r)); cbn [fst snd]; split; auto.
+  Qed.
+
+  Lemma scale_loop_spec m v neg names pn : forall fs ps cur,
+    NoDup pn -> Forall (fun p => map fst p = pn) ps -> map fst cur = pn ->
+    exists cur', scale_loop fsem m v neg names fs ps cur = (spec_scale fsem m v neg names fs ps, cur')
+                 /\ map fst cur' = pn.
+  Proof.
+    induction fs as [|f fs IH]; intros ps cur Hnd Hall Hk.
+    - destruct ps; exists cur; split; auto.
+    - destruct ps as [|p ps]; [exists cur; split; auto|].
+      pose proof (Forall_inv Hall) as Hp. pose proof (Forall_inv_tail Hall) as Hall'. cbn beta in Hp.
+      cbn [scale_loop spec_scale].
+      rewrite (apply_params_same p cur); [|rewrite Hp; exact Hnd|rewrite Hp; exact Hk].
+      cbn [negb]. destruct (stoich_of_variable fsem m p v) as [sto|e]; [|exists p; split; auto].
+      destruct (lookups names sto) as [cs|]; [|exists p; split; auto].
+      destruct (IH ps p Hnd Hall' Hp) as [cur' [E K]]. rewrite E.
+      destruct (spec_scale fsem m v neg names fs ps); exists cur'; split; auto.
+  Qed.
+
+  Lemma Forall_last {A} (P : A -> Prop) (l : list A) d : Forall P l -> l <> [] -> P (last l d).
+  Proof.
+    induction l as [|x l IH]; intros H Hne; [contradiction|].
+    destruct l as [|y l]; [exact (Forall_inv H)|].
+    change (last (x :: y :: l) d) with (last (y :: l) d). apply IH; [exact (Forall_inv_tail H)|discriminate].
+  Qed.
+
+  Lemma view_prodcons_spec m r pn tbs st neg v scaled n conc :
+    wf_res r pn -> evaluable fsem m pn -> canon_tables fsem m r = Ok tbs -> good_state pn tbs st ->
+    fst (view_prodcons fsem FX m r neg v scaled n conc st) = spec_prodcons fsem m r pn neg v scaled n conc
+    /\ good_state pn tbs (snd (view_prodcons fsem FX m r neg v scaled n conc st)).
+  Proof.
+    intros Hwf Hev Hc Hg. pose proof Hwf as [Hnd [Hlen [Hne Hall]]].
+    pose proof (Forall_last _ _ [] Hall Hne) as Hlast. cbn beta in Hlast.
+    unfold view_prodcons, spec_prodcons.
+    destruct (r_pars r) as [|p0 ps] eqn:Ep; [contradiction|].
+    pose proof (Forall_inv Hall) as Hp0. cbn beta in Hp0. destruct Hg as [Hk Hraw].
+    rewrite (apply_params_same p0 (s_cur st)); [|rewrite Hp0; exact Hnd|rewrite Hp0; exact Hk].
+    cbn [negb].
+    assert (G0 : good_state pn tbs (mkSt p0 (s_raw st))) by (split; [exact Hp0|exact Hraw]).
+    destruct (stoich_of_variable fsem m p0 v) as [sto|e]; [|cbn [fst snd]; split; auto].
+    fold (signed_names neg sto).
+    destruct (view_selected_spec m r pn tbs (mkSt p0 (s_raw st)) (flags_fluxes true) n false Hwf Hev Hc G0) as [E1 G1].
+    destruct (view_selected fsem FX m r (flags_fluxes true) n false (mkSt p0 (s_raw st))) as [o st1].
+    cbn [fst snd] in E1, G1. rewrite E1.
+    destruct (spec_selected fsem m r pn (flags_fluxes true) n false) as [f0|fl|d0| |e0|]; cbn [fst snd]; try (split; auto; fail).
+    destruct (map_res (select_cols lookupsQ (signed_names neg sto)) fl) as [fl1|e1]; [|cbn [fst snd]; split; auto].
+    destruct G1 as [K1 R1].
+    destruct scaled.
+    - destruct (scale_loop_spec m v neg (signed_names neg sto) pn fl1 (p0 :: ps) (s_cur st1) Hnd Hall K1) as [cur2 [E2 K2]].
+      rewrite E2. destruct (spec_scale fsem m v neg (signed_names neg sto) fl1 (p0 :: ps)) as [fl2|e2].
+      + rewrite (apply_params_same (last (p0 :: ps) []) cur2); [|rewrite Hlast; exact Hnd|rewrite Hlast; exact K2].
+        cbn [negb]. assert (G3 : good_state pn tbs (mkSt (last (p0 :: ps) []) (s_raw st1))) by (split; [exact Hlast|exact R1]).
+        destruct conc; [destruct (concat0 fl2)|]; cbn [fst snd]; split; auto.
+      + cbn [fst snd]. split; [reflexivity|]. split; [exact K2|exact R1].
+    - rewrite (apply_params_same (last (p0 :: ps) []) (s_cur st1)); [|rewrite Hlast; exact Hnd|rewrite Hlast; exact K1].
+      cbn [negb]. assert (G3 : good_state pn tbs (mkSt (last (p0 :: ps) []) (s_raw st1))) by (split; [exact Hlast|exact R1]).
+      destruct conc; [destruct (concat0 fl1)|]; cbn [fst snd]; split; auto.
+  Qed.
+
+  Lemma view_vars_spec m r pn tbs st dv ro sv conc n :
+    wf_res r pn -> evaluable fsem m pn -> canon_tables fsem m r = Ok tbs -> good_state pn tbs st ->
+    fst (view_vars fsem FX m r dv ro sv conc n st) = spec_vars fsem m r pn dv ro sv conc n
+    /\ good_state pn tbs (snd (view_vars fsem FX m r dv ro sv conc n st)).
+  Proof.
+    intros Hwf Hev Hc Hg. unfold view_vars, spec_vars.
+    destruct (negb (dv || ro || sv)); [cbn [fst snd]; split; auto|].
+    apply view_selected_spec; assumption.
+  Qed.
+
+  Lemma lookup_in_keys {A} k (d : list (name * A)) : In k (map fst d) -> lookup k d <> None.
+  Proof.
+    induction d as [|[k' v'] d IH]; cbn [map fst In lookup]; [contradiction|].
+    intros [->|Hin]; [rewrite N.eqb_refl; discriminate|].
+    destruct (N.eqb k k'); [discriminate|apply IH; exact Hin].
+  Qed.
+  Lemma lookup_some_keys {A} k (d : list (name * A)) x : lookup k d = Some x -> In k (map fst d).
+  Proof.
+    induction d as [|[k' v'] d IH]; cbn [map fst In lookup]; [discriminate|].
+    destruct (N.eqb_spec k k') as [->|Hne]; [left; reflexivity|]. intro H. right. apply IH. exact H.
+  Qed.
+
+  (** every read, from every reachable state: the answer is the state-free specification, and the
+      state stays reachable *)
+  Lemma run_op_spec m r pn tbs o st :
+    wf_res r pn -> evaluable fsem m pn -> canon_tables fsem m r = Ok tbs -> good_state pn tbs st ->
+    (is_view o = true -> fst (run_op fsem FX m r o st) = spec_op fsem m r pn o)
+    /\ good_state pn tbs (snd (run_op fsem FX m r o st)).
+  Proof.
+    intros Hwf Hev Hc Hg. destruct o; cbn [run_op spec_op is_view].
+    - destruct (view_selected_spec m r pn tbs st f n conc Hwf Hev Hc Hg); split; auto.
+    - destruct (view_vars_spec m r pn tbs st dv ro sv conc n Hwf Hev Hc Hg); split; auto.
+    - destruct (view_selected_spec m r pn tbs st (flags_fluxes surr) n conc Hwf Hev Hc Hg); split; auto.
+    - destruct (view_vars_spec m r pn tbs st true true true true NNone Hwf Hev Hc Hg); split; auto.
+    - destruct (view_selected_spec m r pn tbs st (flags_fluxes true) NNone true Hwf Hev Hc Hg); split; auto.
+    - destruct (view_vars_spec m r pn tbs st true true true true NNone Hwf Hev Hc Hg) as [E1 G1].
+      destruct (view_vars fsem FX m r true true true true NNone st) as [a st1]. cbn [fst snd] in E1, G1. rewrite E1.
+      destruct (spec_vars fsem m r pn true true true true NNone) as [fa|?|?| |?|]; cbn [fst snd]; try (split; auto; fail).
+      destruct (view_selected_spec m r pn tbs st1 (flags_fluxes true) NNone true Hwf Hev Hc G1) as [E2 G2].
+      destruct (view_selected fsem FX m r (flags_fluxes true) NNone true st1) as [b st2]. cbn [fst snd] in E2, G2. rewrite E2.
+      destruct (spec_selected fsem m r pn (flags_fluxes true) NNone true); cbn [fst snd]; split; auto.
+    - destruct (view_rhs_spec m r pn tbs st n conc Hwf Hc Hg); split; auto.
+    - destruct (view_prodcons_spec m r pn tbs st false v scaled n conc Hwf Hev Hc Hg); split; auto.
+    - destruct (view_prodcons_spec m r pn tbs st true v scaled n conc Hwf Hev Hc Hg); split; auto.
+    - destruct (view_vars_spec m r pn tbs st false false false true NNone Hwf Hev Hc Hg) as [E1 G1].
+      destruct (view_vars fsem FX m r false false false true NNone st) as [a st1]. cbn [fst snd] in E1, G1. rewrite E1.
+      destruct (spec_vars fsem m r pn false false false true NNone) as [fa|?|?| |?|]; cbn [fst snd]; try (split; auto; fail).
+      destruct (rev (f_rows fa)); cbn [fst snd]; split; auto.
+    - destruct Hg as [Hk Hraw]. destruct (lookup k (s_cur st)) eqn:E; cbn [fst snd].
+      + split.
+        * intros _. assert (Hin : In k pn) by (rewrite <- Hk; apply (lookup_some_keys _ _ _ E)).
+          apply memN_In in Hin. rewrite Hin. reflexivity.
+        * split; cbn [s_cur s_raw]; [|exact Hraw]. rewrite set_assoc_keys; [exact Hk|rewrite E; discriminate].
+      + split; [|split; assumption]. intros _.
+        destruct (memN k pn) eqn:Em; [|reflexivity]. exfalso. apply memN_In in Em. rewrite <- Hk in Em.
+        exact (lookup_in_keys _ _ Em E).
+    - split; [discriminate|exact Hg].
+  Qed.
+
+  (** induction over read sequences *)
+  Lemma run_ops_nth m r pn tbs :
+    wf_res r pn -> evaluable fsem m pn -> canon_tables fsem m r = Ok tbs ->
+    forall os st i o, good_state pn tbs st -> nth_error os i = Some o -> is_view o = true ->
+    nth_error (run_ops fsem FX m r os st) i = Some (spec_op fsem m r pn o).
+  Proof.
+    intros Hwf Hev Hc. induction os as [|o' os IH]; intros st i o Hg Hn Hv.
+    - destruct i; discriminate.
+    - cbn [run_ops]. destruct (run_op_spec m r pn tbs o' st Hwf Hev Hc Hg) as [E G].
+      destruct (run_op fsem FX m r o' st) as [x st'] eqn:Er. cbn [fst snd] in E, G.
+      destruct i as [|i]; cbn [nth_error] in *.
+      + injection Hn as ->. rewrite (E Hv). reflexivity.
+      + apply (IH st' i o G Hn Hv).
+  Qed.
+End Proofs.
